@@ -251,6 +251,11 @@ inline void declare_dispatch_counters() {
 inline int dispatch_main() {
     auto& o = run::g_opts;
     declare_dispatch_counters();
+    if (get("handler", "") == "call_error_throw" &&
+        !hx::install_deprecated_throwing_handler<hx::P>()) {
+        fprintf(stderr, "this policy has no deprecated call_error handler\n");
+        return 2;
+    }
     if (!o.replay.empty()) {
         run::g_sh = new run::Shared();
         run::g_out = stdout;
